@@ -54,9 +54,6 @@ CATALOGUE = [
     ("c11-max-answers-off-by-one", "C11", "dnsrocks/db/wrs.go",
      "\t\tif len(items) < w.MaxAnswers {", "\t\tif len(items) <= w.MaxAnswers {",
      "one address too many is kept when max answer > 1"),
-    ("c12-no-purge", "C12", "dnsrocks/dnsserver/db.go",
-     "\tif h.cacheConfig.Enabled && h.lru != nil {\n\t\th.lru.Purge()\n\t}\n", "",
-     "the cache is not purged on reload (the generation tag must still keep old answers out)"),
     ("c12-no-generation-bump", "C12", "dnsrocks/dnsserver/db.go",
      "\th.cacheGen++\n", "",
      "the cache generation is not bumped on reload: a late insertion survives the purge"),
@@ -82,13 +79,13 @@ CATALOGUE = [
      "\t\t\t\tif val.expires.Before(time.Now()) {", "\t\t\t\tif val.expires.Add(5 * time.Second).Before(time.Now()) {",
      "expired samples are reported for five more seconds"),
     ("c20-maxanswer-not-set", "C20", "dnsrocks/fbserver/maxanswer.go",
-     "\tctx = dnsserver.WithMaxAnswer(ctx, mh.maxAnswer)\n", "",
+     "\tctx = dnsserver.WithMaxAnswer(ctx, mh.maxAnswer)\n", "\tctx = dnsserver.WithMaxAnswer(ctx, dnsserver.DefaultMaxAnswer)\n",
      "the listener's max-answer setting never reaches the database handler"),
     ("c20-any-falls-through", "C20", "dnsrocks/fbserver/any.go",
      "\tif r.Question[0].Qtype != dns.TypeANY {", "\tif r.Question[0].Qtype != dns.TypeANY || len(r.Question[0].Name) > 12 {",
      "ANY queries for longer names are not refused"),
     ("c20-whoami-case-sensitive", "C20", "dnsrocks/whoami/common.go",
-     "strings.ToLower(r.Question[0].Name) != wh.whoamiDomain", "r.Question[0].Name != wh.whoamiDomain",
+     "strings.ToLower(r.Question[0].Name) != wh.whoamiDomain", "r.Question[0].Name != strings.ToLower(wh.whoamiDomain)",
      "the whoami name is matched case-sensitively"),
 ]
 
